@@ -301,7 +301,9 @@ class CodeBase:
         """
         Iterate over all files in the code base by walking each directory.
         """
+        # Sort the directory entries, so that nothing downstream depends on
+        # the order in which the file system happens to enumerate them.
         for directory in self.directories:
-            for path in Path(directory).rglob("*"):
+            for path in sorted(Path(directory).rglob("*")):
                 if self.__contains__(path):
                     yield str(path)
